@@ -108,6 +108,67 @@ pub fn test_case(case: &SerCase) -> TestResult {
         ))
 }
 
+/// Deterministic large models: sizes that cross internal thresholds a small random model never
+/// reaches (thousands of tag models / hash-map entries, more than 65,535 patterns).
+#[derive(Clone, Debug, Serialize, Deserialize)]
+pub struct LargeCase {
+    pub n_tag_models: usize,
+    pub n_char_ngrams: usize,
+    pub n_words: usize,
+}
+
+pub fn large_model(c: &LargeCase) -> SerCase {
+    use vcommon::mirror::{NgramSpec, TagModelSpec, TagNgramSpec, TagWeightSpec, WordSpec};
+    let ch = |i: usize| char::from_u32(0x4E00 + i as u32).unwrap();
+    let mut spec = ModelSpec {
+        char_window: 2,
+        type_window: 2,
+        bias: -3,
+        ..ModelSpec::default()
+    };
+    // distinct 2-character n-grams over a 300-character alphabet
+    for k in 0..c.n_char_ngrams {
+        let (a, b) = (k / 300, k % 300);
+        spec.char_ngrams.push(NgramSpec {
+            ngram: [ch(a), ch(b)].iter().collect(),
+            weights: vec![(k % 11) as i32 - 5, (k % 7) as i32 - 3, (k % 5) as i32 - 2],
+        });
+    }
+    spec.type_ngrams.push(NgramSpec { ngram: vec![5, 5], weights: vec![1, -1, 2] });
+    for k in 0..c.n_words {
+        let w: String = [ch(k), ch(k + 1), ch(k + 2)].iter().collect();
+        spec.dict.push(WordSpec { word: w, weights: vec![7, -(k as i32 % 9), 3, 11], comment: String::new() });
+    }
+    for i in 0..c.n_tag_models {
+        let tok: String = ch(i).to_string();
+        let mut tm = TagModelSpec {
+            token: tok.clone(),
+            tags: vec![vec![format!("A{i}"), format!("B{i}")]],
+            char_ngrams: vec![],
+            type_ngrams: vec![],
+            bias: vec![(i % 7) as i32 - 3, (i % 5) as i32 - 2],
+        };
+        if i % 3 == 0 {
+            tm.char_ngrams.push(TagNgramSpec {
+                ngram: tok,
+                weights: vec![TagWeightSpec { rel_position: 0, weights: vec![(i % 4) as i32, 2] }],
+            });
+        }
+        spec.tag_models.push(tm);
+    }
+    // texts that walk over every tag-model token; single-character tokens are forced by the
+    // positive... (boundaries are whatever the model predicts; RefTags follows them)
+    let n = c.n_tag_models.max(300);
+    let mut texts = vec![];
+    let mut i = 0;
+    while i < n {
+        let t: String = (i..(i + 125).min(n)).map(ch).collect();
+        texts.push(t);
+        i += 125;
+    }
+    SerCase { spec, texts, trailing: vec![9, 8, 7] }
+}
+
 pub fn case_strategy() -> impl Strategy<Value = SerCase> {
     (
         prop_oneof![
@@ -124,6 +185,20 @@ pub fn case_strategy() -> impl Strategy<Value = SerCase> {
 }
 
 pub fn run(rep: &mut Report) {
+    rep.run_enum(
+        "large-models",
+        "deterministic large models crossing size thresholds no small random model reaches: \
+5,000 tag models (hash maps with > 4,096 entries), 70,000 character n-grams (> 65,535 patterns), \
+hundreds of dictionary words; same round-trip + reference oracle on texts that walk over every \
+tag-model token",
+        false,
+        vec![
+            LargeCase { n_tag_models: 5000, n_char_ngrams: 300, n_words: 40 },
+            LargeCase { n_tag_models: 200, n_char_ngrams: 70000, n_words: 250 },
+        ]
+        .into_iter(),
+        |c: &LargeCase| test_case(&large_model(c)).map(|mut i| { i.nontrivial = true; i }),
+    );
     let n = rep.n(12000, 120000);
     rep.run_prop(
         "serialize-deserialize",
